@@ -60,7 +60,7 @@ struct ASong {
     tags: BTreeMap<String, Vec<String>>,
 }
 
-fn dur(s: &str) -> Duration {
+pub fn dur(s: &str) -> Duration {
     let (i, f) = s.split_once('.').unwrap_or((s, "0"));
     let mut f = f.to_string();
     while f.len() < 9 {
@@ -214,7 +214,7 @@ fn diff(kind: &str, want: &[ASong], got: &[ASong]) -> Option<String> {
 
 /// the protocol's tag names (MPD tag_names[]), plus one the library does not know
 /// exactly representable or harmless under f64 -> nanosecond rounding
-const DURATION_SPELLINGS: &[&str] = &["2.5", "10.25", "61.0625", "3.0", "1.0000", "0.5", "0.05", "0.005", "0.0005", "12", "1.50", "1.500000", "99.999999", "7.000001", "0.125", "1234.5", "5.25", "100.75"];
+pub const DURATION_SPELLINGS: &[&str] = &["2.5", "10.25", "61.0625", "3.0", "1.0000", "0.5", "0.05", "0.005", "0.0005", "12", "1.50", "1.500000", "99.999999", "7.000001", "0.125", "1234.5", "5.25", "100.75"];
 
 const TAG_NAMES: &[&str] = &[
     "Artist", "ArtistSort", "Album", "AlbumSort", "AlbumArtist", "AlbumArtistSort", "Title", "Track", "Name", "Genre", "Date", "OriginalDate", "Composer", "ComposerSort", "Performer", "Conductor", "Work", "Ensemble", "Movement",
